@@ -88,10 +88,13 @@ func parsimonyUPPASS(cur, prev *tree.Node, a align.Alignment, seqs []*AncestralS
 				possibilities = align.IupacCode[c]
 			} else {
 				if c == align.ALL_AMINO {
-					for k := range charToIndex {
-						possibilities = append(possibilities, k)
+					// Every character of the alphabet except the two appended last ('-' and '*');
+					// map iteration order is random, so the last two cannot be cut off by position
+					for k, idx := range charToIndex {
+						if idx < len(charToIndex)-2 {
+							possibilities = append(possibilities, k)
+						}
 					}
-					possibilities = possibilities[:len(possibilities)-2]
 				} else {
 					possibilities = append(possibilities, c)
 				}
